@@ -122,3 +122,44 @@ theorem weighted_const (c : K) (l : List (List K × List K)) :
 
 end cvx
 end QM.C11
+
+/-! ## ε-optimality from a small projected-gradient residual -/
+namespace QM.C11
+open QM.C10
+open scoped RealInnerProductSpace
+variable {E : Type} [NormedAddCommGroup E] [InnerProductSpace ℝ E]
+
+/-- variational inequality of `P` at `x − ∇f(x)/μ` tested against `z ∈ C`: the linearised decrease towards `z` is bounded by
+the residual `y = P(x − ∇f(x)/μ) − x`. -/
+theorem linearised_gap_le {P : E → E} {C : Set E} (hP : IsProjOn P C) (g : E → E) {mu : ℝ} (hmu : 0 < mu) (x : E) {z : E}
+    (hz : z ∈ C) :
+    -⟪g x, z - x⟫ ≤ ‖pgdbDir P g mu x‖ * (‖g x‖ + mu * ‖z - x‖) := by
+  rw [pgdbDir_def]
+  set zz := x - (1 / mu) • g x with hzz
+  set y := P zz - x with hy
+  have hvi := (hP zz).2 z hz
+  set d := z - x with hd
+  have e1 : zz - P zz = -((1 / mu) • g x) - y := by rw [hzz, hy]; abel
+  have e2 : z - P zz = d - y := by rw [hy, hd]; abel
+  have hexp : ⟪-((1 / mu) • g x) - y, d - y⟫
+      = -((1 / mu) * ⟪g x, d⟫) + (1 / mu) * ⟪g x, y⟫ - ⟪y, d⟫ + ‖y‖ ^ 2 := by
+    simp only [inner_sub_left, inner_sub_right, inner_neg_left, real_inner_smul_left, real_inner_self_eq_norm_sq]
+    ring
+  rw [e1, e2, hexp] at hvi
+  have hb : -⟪g x, y⟫ ≤ ‖g x‖ * ‖y‖ := by
+    have := abs_real_inner_le_norm (g x) y
+    have := neg_abs_le (⟪g x, y⟫)
+    linarith
+  have hc : ⟪y, d⟫ ≤ ‖y‖ * ‖d‖ := real_inner_le_norm y d
+  have hn : 0 ≤ ‖y‖ ^ 2 := by positivity
+  have h1 : mu * (-((1 / mu) * ⟪g x, d⟫) + (1 / mu) * ⟪g x, y⟫ - ⟪y, d⟫ + ‖y‖ ^ 2) ≤ 0 :=
+    mul_nonpos_of_nonneg_of_nonpos hmu.le hvi
+  have h2 : mu * (-((1 / mu) * ⟪g x, d⟫) + (1 / mu) * ⟪g x, y⟫ - ⟪y, d⟫ + ‖y‖ ^ 2)
+      = -⟪g x, d⟫ + ⟪g x, y⟫ - mu * ⟪y, d⟫ + mu * ‖y‖ ^ 2 := by
+    field_simp
+  rw [h2] at h1
+  have hc' : mu * ⟪y, d⟫ ≤ mu * (‖y‖ * ‖d‖) := mul_le_mul_of_nonneg_left hc hmu.le
+  have hn' : 0 ≤ mu * ‖y‖ ^ 2 := mul_nonneg hmu.le hn
+  nlinarith
+
+end QM.C11
